@@ -45,7 +45,7 @@ func (c *componentOffset) SetComponentTag(value byte) {
 
 // SetPTSOffset sets the PTS offset of the component.
 func (c *componentOffset) SetPTSOffset(value gots.PTS) {
-	c.ptsOffset = value
+	c.ptsOffset = value & 0x01ffffffff // a 33 bit field
 }
 
 // CreateSegmentationDescriptor creates and returns a default
@@ -241,7 +241,7 @@ func (d *segmentationDescriptor) SetHasNoRegionalBlackout(value bool) {
 
 // SetDeviceRestrictions sets which device group the segment is restriced to, this field has no meaning if delivery is not restricted.
 func (d *segmentationDescriptor) SetDeviceRestrictions(value DeviceRestrictions) {
-	d.deviceRestrictions = value
+	d.deviceRestrictions = value & 0x03 // a 2 bit field
 }
 
 // SetMID sets multiple UPIDs, only works if UPIDType is SegUPIDMID
